@@ -5,6 +5,7 @@ CONSTANTS
   MaxPath = 2
   EMIT = TRUE
   RICH = FALSE
+  UNIFORM = FALSE
 INVARIANT WellFormed
 INVARIANT GenLexAgree
 INVARIANT Emit
